@@ -1,0 +1,181 @@
+//go:build verif
+
+// Hooks for the verification harness in /verif. Add-only: nothing in this
+// file is compiled without the `verif` build tag and nothing here changes
+// the behaviour of the package; it only exports access to unexported
+// functions and state.
+
+package uasc
+
+import (
+	"crypto/rsa"
+
+	"github.com/gopcua/opcua/ua"
+	"github.com/gopcua/opcua/uacp"
+	"github.com/gopcua/opcua/uapolicy"
+)
+
+// VerifInstance wraps a channel instance.
+type VerifInstance struct{ C *channelInstance }
+
+// VerifNewSymmetricInstance builds a stand-alone channel instance for the given
+// policy and mode with symmetric keys derived from the two nonces.
+func VerifNewSymmetricInstance(uri string, mode ua.MessageSecurityMode, localNonce, remoteNonce []byte) (*VerifInstance, error) {
+	algo, err := uapolicy.Symmetric(uri, localNonce, remoteNonce)
+	if err != nil {
+		return nil, err
+	}
+	c := &channelInstance{
+		sc:              &SecureChannel{cfg: &Config{SecurityMode: mode, SecurityPolicyURI: uri}},
+		algo:            algo,
+		state:           channelActive,
+		secureChannelID: 1,
+		securityTokenID: 1,
+	}
+	return &VerifInstance{C: c}, nil
+}
+
+// VerifNewAsymmetricInstance builds a stand-alone channel instance that uses
+// the asymmetric algorithm of the policy (OpenSecureChannel messages).
+func VerifNewAsymmetricInstance(uri string, mode ua.MessageSecurityMode, localKey *rsa.PrivateKey, remoteKey *rsa.PublicKey, cert, thumbprint []byte) (*VerifInstance, error) {
+	algo, err := uapolicy.Asymmetric(uri, localKey, remoteKey)
+	if err != nil {
+		return nil, err
+	}
+	c := &channelInstance{
+		sc:    &SecureChannel{cfg: &Config{SecurityMode: mode, SecurityPolicyURI: uri, Certificate: cert, Thumbprint: thumbprint, LocalKey: localKey}},
+		algo:  algo,
+		state: channelOpening,
+	}
+	return &VerifInstance{C: c}, nil
+}
+
+func (v *VerifInstance) Algo() *uapolicy.EncryptionAlgorithm { return v.C.algo }
+
+func (v *VerifInstance) SetMaximumBodySize(chunkSize int) uint32 {
+	v.C.SetMaximumBodySize(chunkSize)
+	return v.C.maxBodySize
+}
+
+func (v *VerifInstance) MaxBodySize() uint32        { return v.C.maxBodySize }
+func (v *VerifInstance) SetMaxBodySize(n uint32)    { v.C.maxBodySize = n }
+func (v *VerifInstance) SetSequenceNumber(n uint32) { v.C.sequenceNumber = n }
+func (v *VerifInstance) SequenceNumber() uint32     { return v.C.sequenceNumber }
+func (v *VerifInstance) NextSequenceNumber() uint32 { return v.C.nextSequenceNumber() }
+func (v *VerifInstance) SetIDs(channelID, tokenID uint32) {
+	v.C.secureChannelID, v.C.securityTokenID = channelID, tokenID
+}
+func (v *VerifInstance) IDs() (uint32, uint32) { return v.C.secureChannelID, v.C.securityTokenID }
+
+// NewMessage calls newMessage (which draws the next sequence number).
+func (v *VerifInstance) NewMessage(srv interface{}, typeID uint16, requestID uint32) *Message {
+	return v.C.newMessage(srv, typeID, requestID)
+}
+
+// SignAndEncrypt calls signAndEncrypt on the raw chunk bytes b that belong
+// to message m.
+func (v *VerifInstance) SignAndEncrypt(m *Message, b []byte) ([]byte, error) {
+	return v.C.signAndEncrypt(m, b)
+}
+
+// VerifyAndDecryptRaw decodes the headers of the raw chunk and calls
+// verifyAndDecrypt. It returns the plaintext following the security header
+// (sequence header + body).
+func (v *VerifInstance) VerifyAndDecryptRaw(raw []byte) ([]byte, error) {
+	m := new(MessageChunk)
+	if _, err := m.Decode(raw); err != nil {
+		return nil, err
+	}
+	return v.C.verifyAndDecrypt(m, raw)
+}
+
+// VerifMergeChunks exposes mergeChunks.
+func VerifMergeChunks(chunks []*MessageChunk) ([]byte, error) { return mergeChunks(chunks) }
+
+// VerifOpenChannel returns a secure channel over conn which is already open:
+// it has one active symmetric instance with the given ids, sequence number and
+// nonces. server selects the channel kind.
+func VerifOpenChannel(conn *uacp.Conn, cfg *Config, isServer bool, channelID, tokenID, seq uint32, localNonce, remoteNonce []byte, errch chan<- error) (*SecureChannel, error) {
+	kind := client
+	if isServer {
+		kind = server
+	}
+	s, err := newSecureChannel("opc.tcp://verif", conn, cfg, kind, errch, 0, 0, 0)
+	if err != nil {
+		return nil, err
+	}
+	inst := newChannelInstance(s)
+	inst.secureChannelID = channelID
+	inst.securityTokenID = tokenID
+	inst.sequenceNumber = seq
+	inst.state = channelActive
+	if inst.algo, err = uapolicy.Symmetric(cfg.SecurityPolicyURI, localNonce, remoteNonce); err != nil {
+		return nil, err
+	}
+	inst.SetMaximumBodySize(int(conn.SendBufSize()))
+	s.instances[channelID] = append(s.instances[channelID], inst)
+	s.activeInstance = inst
+	return s, nil
+}
+
+// VerifActive returns the active instance (nil if none).
+func (s *SecureChannel) VerifActive() *VerifInstance {
+	s.instancesMu.Lock()
+	defer s.instancesMu.Unlock()
+	if s.activeInstance == nil {
+		return nil
+	}
+	return &VerifInstance{C: s.activeInstance}
+}
+
+// VerifStartDispatcher starts the client dispatcher goroutine.
+func (s *SecureChannel) VerifStartDispatcher() {
+	s.startDispatcher.Do(func() { go s.dispatcher() })
+}
+
+// VerifInstanceTable returns, per secure channel id key, the token ids of the
+// instances kept for decryption.
+func (s *SecureChannel) VerifInstanceTable() map[uint32][]uint32 {
+	s.instancesMu.Lock()
+	defer s.instancesMu.Unlock()
+	out := map[uint32][]uint32{}
+	for k, l := range s.instances {
+		ids := make([]uint32, 0, len(l))
+		for _, i := range l {
+			ids = append(ids, i.securityTokenID)
+		}
+		out[k] = ids
+	}
+	return out
+}
+
+// VerifHandlerIDs returns the request ids with a registered response handler.
+func (s *SecureChannel) VerifHandlerIDs() []uint32 {
+	s.handlersMu.Lock()
+	defer s.handlersMu.Unlock()
+	out := make([]uint32, 0, len(s.handlers))
+	for k := range s.handlers {
+		out = append(out, k)
+	}
+	return out
+}
+
+// VerifChunkTable returns the number of retained chunks and retained payload
+// bytes per request id.
+func (s *SecureChannel) VerifChunkTable() (entries, chunks, bytes int) {
+	s.chunksMu.Lock()
+	defer s.chunksMu.Unlock()
+	for _, l := range s.chunks {
+		entries++
+		chunks += len(l)
+		for _, c := range l {
+			bytes += len(c.Data)
+		}
+	}
+	return
+}
+
+func (s *SecureChannel) VerifNextRequestID() uint32             { return s.nextRequestID() }
+func (s *SecureChannel) VerifSetRequestID(n uint32)             { s.requestID = n }
+func (s *SecureChannel) VerifConfig() *Config                   { return s.cfg }
+func (s *SecureChannel) VerifReadChunk() (*MessageChunk, error) { return s.readChunk() }
